@@ -148,7 +148,7 @@ func (x *exec) afterCall(s *State, fn *ssa.Function, args []Value) {
 func (x *exec) callFunc1(s *State, fn *ssa.Function, args []Value, bind []Value, pos token.Pos) Value {
 	e := x.e
 	key := FuncKey(fn)
-	if fn.Synthetic != "" && fn.Blocks != nil && fn.Parent() == nil && !strings.HasPrefix(fn.Synthetic, "package init") {
+	if fn.Blocks != nil && fn.Parent() == nil && (strings.HasPrefix(fn.Synthetic, "wrapper") || strings.HasPrefix(fn.Synthetic, "bound method") || strings.HasPrefix(fn.Synthetic, "thunk")) {
 		// wrappers / bound method thunks: just inline them
 		return x.inline(s, fn, args, bind, pos)
 	}
@@ -158,7 +158,7 @@ func (x *exec) callFunc1(s *State, fn *ssa.Function, args []Value, bind []Value,
 	if blk, k2 := x.lookupContract(key); blk != nil && !blk.Has("inline") {
 		return x.applyContract(s, blk, fn, args, pos, k2, fn.Signature)
 	}
-	if fn.Blocks != nil && x.depth < e.MaxInline && e.P.PkgOf(fn) != nil && strings.HasPrefix(e.P.PkgOf(fn).PkgPath, ModPath) {
+	if fn.Blocks != nil && x.depth < e.MaxInline && fn.Origin() == nil && e.P.PkgOf(fn) != nil && strings.HasPrefix(e.P.PkgOf(fn).PkgPath, ModPath) {
 		if blk := e.P.Contracts[key]; blk != nil || inlinable(fn) {
 			return x.inline(s, fn, args, bind, pos)
 		}
@@ -306,7 +306,7 @@ func (x *exec) havocReachable(s *State, a Value) {
 			if strings.HasPrefix(key, "A:") && so.Elem.Kind == KArray {
 				h := e.heapGet(s, key, so)
 				e.noteWrite(s, key, wtarget{kind: wRow, arr: v.Arr, lo: v.Off, n: v.Cap})
-				e.heapSet(s, key, c.Store(h, v.Arr, c.Fresh("ext.row", so.Elem)))
+				e.heapSet(s, key, c.Store(h, v.Arr, c.Fresh("ext.row{"+key+"}", so.Elem)))
 			}
 		}
 	case IfaceV:
@@ -340,6 +340,30 @@ func (x *exec) callbackCall(s *State, fv Value, args []Value, res *types.Tuple, 
 	if f, ok := fv.(FuncV); ok && f.Opaque != nil {
 		x.oblige("nil", "", pos, s, e.C.Ne(f.Opaque, e.C.IntC(0)), "call of nil function")
 	}
+	// "callback <param> pure": calls through that parameter are assumed to leave
+	// the heap this function works on alone (an assumption on the callers'
+	// closures, listed in the evidence)
+	if t := x.topExec(); t.contract != nil {
+		if f, ok := fv.(FuncV); ok && f.Opaque != nil {
+			for _, cl := range t.contract.Of("callback") {
+				fl := strings.Fields(cl.Text)
+				if len(fl) == 2 && fl[1] == "pure" {
+					for i, p := range t.fn.Params {
+						if p.Name() == fl[0] {
+							if pf, ok := t.args[i].(FuncV); ok && pf.Opaque == f.Opaque {
+								e.Assumed[shortFuncKey(t.fn)+": calls through parameter "+fl[0]+" do not modify the state this function works on"] = true
+								var vals []Value
+								for i := 0; i < res.Len(); i++ {
+									vals = append(vals, e.fresh(res.At(i).Type(), "cb", s))
+								}
+								return resultValue(vals, len(vals))
+							}
+						}
+					}
+				}
+			}
+		}
+	}
 	{
 		nn := e.C.Fresh("next", Int)
 		nn.AddFact(e.C.Le(s.next, nn))
@@ -352,7 +376,7 @@ func (x *exec) callbackCall(s *State, fv Value, args []Value, res *types.Tuple, 
 		if strings.HasPrefix(key, "ghost:") {
 			continue
 		}
-		s.heap[key] = e.C.Fresh("cb.H:"+key, so)
+		s.heap[key] = e.C.Fresh("cb.H{"+key+"}", so)
 	}
 	before := s.alloc
 	na := e.C.Fresh("alloc.cb", Int)
@@ -519,7 +543,7 @@ func (x *exec) copyElems(s *State, el types.Type, dArr, dOff, sArr, sOff, n *Ter
 				newRow = c.Store(newRow, c.Add(dOff, c.IntC(int64(k))), v)
 			}
 		} else {
-			newRow = c.Fresh("copy", Array(Int, l.sort))
+			newRow = c.Fresh("copy{"+key+"}", Array(Int, l.sort))
 			k := c.BoundVar("k", Int)
 			in := c.And(c.Le(dOff, k), c.Lt(k, c.Add(dOff, n)))
 			sel := c.Select(newRow, k)
@@ -537,7 +561,7 @@ func (x *exec) copyFromString(s *State, dArr, dOff, str, n *Term) {
 	h := e.heapGet(s, key, Array(Int, Array(Int, BV8)))
 	e.noteWrite(s, key, wtarget{kind: wRow, arr: dArr, lo: dOff, n: n})
 	dstRow := c.Select(h, dArr)
-	newRow := c.Fresh("copystr", Array(Int, BV8))
+	newRow := c.Fresh("copystr{A:uint8}", Array(Int, BV8))
 	k := c.BoundVar("k", Int)
 	in := c.And(c.Le(dOff, k), c.Lt(k, c.Add(dOff, n)))
 	sel := c.Select(newRow, k)
